@@ -25,6 +25,7 @@ LEVEL_TEXT += ' Added clause: a name of the AST wins over a sandbox builtin of t
 TECHNIQUE += '; uncalled bound str.format in the gate table; termination of constant()'
 TECHNIQUE += '; forbidden accesses inside lambda bodies handed to context functions (R3)'
 LEVEL_TEXT += ' Added clauses: a bound format method cannot be handed to a builtin; deep evaluation ends.'
+LEVEL_TEXT += ' Added clauses (rounds 9-11): forbidden accesses inside lambda bodies are rejected.'
 LEVEL_NOTE = ('Trusted: CPython eval(src, {"__builtins__": {}}, ctx) resolves names only in ctx; the builtin namespace '
               'of /venv python 3.12 (incl. site additions) is the environment model; effect classes of builtins '
               '(DESIGN appendix B) are the oracle.')
